@@ -98,8 +98,37 @@ def structural(find_def):
     if not sets or any(s_ is None or not all(isinstance(c, str) for c in s_) for s_ in sets):
         out.append((name, None, "the marker set of the typed-default classifier was not found as a frozenset constant in the test of `ast.AST() if ... else literal_eval(...)`"))
         return out
+    out.extend(_adhoc_table_obligation())
     clash = sorted(set().union(*[set("".join(s_)) for s_ in sets]) & NUMBER_REPR_CHARS)
     out.append((name, not clash,
                 "marker characters %s never occur in repr() of an int / float / complex / bool" % sorted(set().union(*sets)) if not clash
                 else "marker character(s) %r occur in repr() of numbers (e.g. repr(1e16) == '1e+16', repr(1+2j) == '(1+2j)'): such a default is code-quoted on the way back" % clash))
     return out
+
+
+# Second lemma of the same kind: the parser sniffs a type from the words of a description (table adhoc_type_to_type of
+# cdd/docstring/utils/parse_utils.py) AFTER the emitter has appended "Defaults to <repr(default)>" to it.  The words
+# repr() writes for a bool / None default must therefore not be keys of that table, or the declared type of every
+# parameter with such a default is overwritten on the way back.
+DEFAULT_REPR_WORDS = frozenset(("True", "False", "None"))
+
+
+def _adhoc_table_obligation():
+    import ast
+
+    from cddvc import extract
+
+    name = "adhoc_type_to_type/keys-disjoint-from-default-repr-words"
+    tree, _src, _p = extract.module_ast("cdd.docstring.utils.parse_utils")
+    keys = None
+    for n in tree.body:
+        tgt = n.target if isinstance(n, ast.AnnAssign) else (n.targets[0] if isinstance(n, ast.Assign) and len(n.targets) == 1 else None)
+        if isinstance(tgt, ast.Name) and tgt.id == "adhoc_type_to_type" and isinstance(n.value, ast.Dict):
+            keys = [k.value for k in n.value.keys if isinstance(k, ast.Constant) and isinstance(k.value, str)]
+            if len(keys) != len(n.value.keys):
+                keys = None
+    if keys is None:
+        return [(name, None, "adhoc_type_to_type was not found as a module-level dict literal with constant string keys")]
+    clash = sorted(set(keys) & DEFAULT_REPR_WORDS)
+    return [(name, not clash, "none of the %d trigger words is a word repr() writes for a bool / None default" % len(keys) if not clash
+             else "trigger word(s) %r are what 'Defaults to <repr>' writes for a default: the declared type of such a parameter is replaced by the sniffed one" % clash)]
